@@ -24,11 +24,12 @@ theorem coordRangeAxis_valid (guess : Nat → Nat → Int) (hg : C06.GuessOK gue
   obtain ⟨r2, h2, l2, u2⟩ := C06.bin1d_returns guess hg e hne cr.2
   unfold coordRangeAxis
   simp only [h1, h2, bind, Except.bind]
-  split
-  · exact ⟨none, rfl, by simp⟩
-  · refine ⟨_, rfl, ?_⟩
+  by_cases hc : (if r1 = -1 then (0 : Int) else r1) ≥ (e.length : Int) ∨ (if r2 = (e.length : Int) then r2 - 1 else r2) ≤ 0
+  · exact ⟨none, by simp [hc, pure, Except.pure], by simp⟩
+  · refine ⟨some (if r1 = -1 then (0 : Int) else r1, if r2 = (e.length : Int) then r2 - 1 else r2),
+      by simp [hc, pure, Except.pure], ?_⟩
     intro lo up h
-    simp [pure, Except.pure] at h
+    simp at h
     obtain ⟨rfl, rfl⟩ := h
     constructor
     · intro l hl; simp at hl; subst hl; split <;> omega
@@ -86,16 +87,26 @@ theorem iter_cells_coord_ranges (guess : Nat → Nat → Nat → Int) (hg : ∀ 
 theorem iter_cells_both_ranges (guess : Nat → Nat → Nat → Int) (h : Hist) (c : CoordRangesArg) :
     iterCellsCoord guess h true c = .error .lenaTypeError := rfl
 
-/-- what the code selects on one axis with strictly increasing edges: with `n(v)` the number of edges `≤ v`, the
-bins `max(0, n(low) − 1) ≤ i < n(high) − 1`, and nothing at all when `n(high) ≤ 1`.  The bin that contains `high`
-has index `n(high) − 1`: it is *not* selected (lena's docstring says it is). -/
+theorem increasingPairs_eq : ∀ (e : List Q), increasingPairs e = C06.increasingPairs e
+  | [] => rfl
+  | [_] => rfl
+  | a :: b :: rest => by simp [increasingPairs, C06.increasingPairs, increasingPairs_eq (b :: rest)]
+
+/-- what the code selects on one axis with strictly increasing edges (`increasingPairs`, the test of
+`check_edges_increasing`): with `n(v) = edgesNotAbove e v` the number of edges `≤ v`, the bins
+`max(0, n(low) − 1) ≤ i < n(high) − 1`, and nothing at all when `n(high) ≤ 1`.  The bin that contains `high` has
+index `n(high) − 1`: it is *not* selected (lena's docstring says it is).  In particular the branch
+`if upper_bin_ind == max_ind: upper_bin_ind -= 1` (hist_functions.py:577-578) is never taken. -/
 theorem coord_range_axis_selects (guess : Nat → Nat → Int) (hg : C06.GuessOK guess) (e : List Q)
-    (hinc : C06.StrictInc e) (hne : e ≠ []) (lo hi : Q) :
+    (hinc : increasingPairs e = true) (hne : e ≠ []) (lo hi : Q) :
     coordRangeAxis guess e (lo, hi) =
-      .ok (if C06.countLE e hi ≤ 1 then none
-           else some (((C06.countLE e lo : Int) - 1 ⊔ 0), (C06.countLE e hi : Int) - 1)) := by
-  have h1 := C06.bin1d_spec guess lo (hg.at e lo) hinc hne
-  have h2 := C06.bin1d_spec guess hi (hg.at e hi) hinc hne
+      .ok (if edgesNotAbove e hi ≤ 1 then none
+           else some (max ((edgesNotAbove e lo : Int) - 1) 0, (edgesNotAbove e hi : Int) - 1)) := by
+  have hinc' : C06.StrictInc e := (C06.increasingPairs_iff e).1 (by rw [← increasingPairs_eq]; exact hinc)
+  have hc : ∀ v, edgesNotAbove e v = C06.countLE e v := fun _ => rfl
+  simp only [hc]
+  have h1 := C06.bin1d_spec guess lo (hg.at e lo) hinc' hne
+  have h2 := C06.bin1d_spec guess hi (hg.at e hi) hinc' hne
   have k1 := C06.countLE_le_length e lo
   have k2 := C06.countLE_le_length e hi
   unfold coordRangeAxis
@@ -114,8 +125,11 @@ theorem coord_range_axis_selects (guess : Nat → Nat → Int) (hg : C06.GuessOK
     congr 3
     split <;> omega
 
-example : (iterCellsCoord (fun _ lo _ => lo) { exHist with edges := .flat [0, 1, 2, 3, 4],
-      bins := .node [.leaf 10, .leaf 11, .leaf 12, .leaf 13] } false (.many [(1/2, 5/2)])).toOption.map
+/-- edges `[0, 1, 2, 3, 4]`, bins `[10, 11, 12, 13]` -/
+def exHist4 : Hist :=
+  { edges := .flat [0, 1, 2, 3, 4], bins := .node [.leaf 10, .leaf 11, .leaf 12, .leaf 13], nOut := 0, scale := none }
+
+example : (iterCellsCoord (fun _ lo _ => lo) exHist4 false (.many [(1/2, 5/2)])).toOption.map
     (fun l => l.map (·.index)) = some [[0], [1]] := by decide +kernel
 
 /-! ## `get_bin_edges`, `get_bin_on_index` -/
